@@ -50,6 +50,7 @@ func main() {
 	out := os.Args[1]
 	seed, _ := strconv.ParseInt(os.Args[2], 10, 64)
 	thorough := os.Args[3] == "1"
+	longOnly := len(os.Args) > 4 && os.Args[4] == "long"
 	rng := rand.New(rand.NewSource(seed))
 	w := rec.Must(out)
 	defer w.Close()
@@ -75,6 +76,9 @@ func main() {
 		ends := map[string][2]conn{"client": {p.C.T, p.H}, "server": {p.H, p.C.T}}
 		eps := map[string][2]*simwire.Endpoint{"client": {p.C.EP, p.S.EP}, "server": {p.S.EP, p.C.EP}}
 		for _, who := range []string{"client", "server"} {
+			if longOnly {
+				break
+			}
 			wr, rd := ends[who][0], ends[who][1]
 			from, to := eps[who][0], eps[who][1]
 			for _, n := range sizes {
@@ -107,6 +111,9 @@ func main() {
 		// concurrent writers: G goroutines x M messages each, client -> server; counters must be distinct, every
 		// message arrives once
 		for _, G := range []int{2, 4} {
+			if longOnly {
+				break
+			}
 			M := 40
 			var wg sync.WaitGroup
 			for g := 0; g < G; g++ {
@@ -152,6 +159,44 @@ func main() {
 			}
 			w.Ev("conc", "writers", G, "msgs", G*M, "datagrams", len(ds), "distinctctrs", len(ctrs), "delivered", len(seen), "dups", dups, "corrupt", corrupt, "hidden", yn(hidden))
 		}
+		// long session: N in-order messages client -> server; after each, earlier datagrams (still inside the replay
+		// window, at its edges, across 64-counter block boundaries) are replayed from a third address.  None may be
+		// delivered again and the server must keep sending to the client's address.
+		N := 700
+		if thorough {
+			N = 2500
+		}
+		var dgs [][]byte
+		x := simwire.Addr("10.0.9.9", 999)
+		delivered, tried, redelivered, moved := 0, 0, 0, 0
+		buf := make([]byte, 2000)
+		readAll := func() (k int) {
+			for {
+				p.H.SetReadDeadline(time.Now().Add(200 * time.Microsecond))
+				if _, err := p.H.ReadMsg(buf); err != nil {
+					return
+				}
+				k++
+			}
+		}
+		for i := 0; i < N; i++ {
+			p.C.T.WriteMsg([]byte(fmt.Sprintf("long-%d", i)))
+			ds := p.W.Net.TakeFrom(p.C.EP)
+			dgs = append(dgs, ds[0].Data)
+			p.S.EP.Deliver(ds[0].Data, ds[0].From, hopkit.StepTimeout)
+			delivered += readAll()
+			for _, back := range []int{0, 1, 63, 64, 65, 383, 384, 385, 446, 447, 448, 449, 450, 511, 512} {
+				if j := i - back; j >= 0 && (rng.Intn(6) == 0 || back >= 383) {
+					tried++
+					p.S.EP.Deliver(dgs[j], x, hopkit.StepTimeout)
+					redelivered += readAll()
+					if hv := p.H.VerifSession(); hv.Remote != p.C.EP.Addr().String() {
+						moved++
+					}
+				}
+			}
+		}
+		w.Ev("longrun", "sent", N, "delivered", delivered, "replays", tried, "redelivered", redelivered, "moved", moved, "hidden", yn(hidden))
 		p.W.Close()
 	}
 }
